@@ -199,9 +199,10 @@ func Execute(
 		for i := 1; i < attempt; i++ {
 			multiplier *= config.BackoffFactor
 		}
-		backoff := time.Duration(float64(config.InitialBackoff) * multiplier)
-		if backoff > config.MaxBackoff {
-			backoff = config.MaxBackoff
+		// Compare in floating point first: the product can exceed the range of time.Duration.
+		backoff := config.MaxBackoff
+		if scaled := float64(config.InitialBackoff) * multiplier; scaled < float64(config.MaxBackoff) {
+			backoff = time.Duration(scaled)
 		}
 
 		if verifhook.Backoff(backoff) {
